@@ -1,3 +1,5 @@
+import re
+
 from ural.data import ISO_3166_1_COUNTRIES_ALPHA_2
 from ural.normalize_url import normalize_url, normalize_hostname, qsl_sort_key
 from ural.utils import (
@@ -15,6 +17,15 @@ from ural.quote import upper_quoted
 from ural.patterns import CONTROL_CHARS_RE
 
 LANG_QUERY_KEYS = ("gl", "hl")
+
+ESCAPED_UPPERCASE_RE = re.compile(r"%(?:4[1-9a-f]|5[0-9a])", re.I)
+ESCAPED_UPPERCASE = {
+    "%%%02X" % code: chr(code).lower() for code in range(ord("A"), ord("Z") + 1)
+}
+
+
+def lower_escaped_letter(match):
+    return ESCAPED_UPPERCASE[match.group(0).upper()]
 
 # TODO: drop tld
 
@@ -77,16 +88,10 @@ def get_fingerprinted_hostname(url, infer_redirection=True, strip_suffix=False):
 
 
 def fingerprint_url(url, unsplit=True, strip_suffix=False, platform_aware=False):
+    # NOTE: an escaped upper-case letter ('%49ndex.html') must be lower-cased too,
+    # and before the normalization heuristics look at the url
+    url = ESCAPED_UPPERCASE_RE.sub(lower_escaped_letter, url)
     url = url.lower()
-
-    # NOTE: unquoting can reveal upper-case letters ('%49ndex.html') that matter
-    # to the normalization heuristics, hence a first pass before the actual one
-    url = normalize_url(
-        url,
-        strip_protocol=False,
-        query_item_filter=lang_query_item_filter,
-        platform_aware=platform_aware,
-    ).lower()
 
     splitted = normalize_url(
         url,
